@@ -976,6 +976,24 @@ class Ref(object):
     self.take_async(W.PORT_STATUS)
     self.sim.probes["port_mod_" + res[0]] += 1
 
+  def op_del_port(self, st):
+    """a port is unplugged (a local event, no message): packets that came
+    in on it and are held stay held, under the ids they were announced with"""
+    mdl = self.model
+    p = st["port"]
+    if p not in mdl.ports or len(mdl.ports) <= 1:
+      return
+    self.sync()
+    self.world.switch.delete_port(p)
+    self.sim.drain()
+    del mdl.ports[p]
+    mdl.rx.pop(p, None)
+    mdl.tx.pop(p, None)
+    self.take_async(W.PORT_STATUS)
+    self.sim.probes["port_deleted_locally"] += 1
+    if any(ip == p for _, ip in mdl.buffers.values()):
+      self.sim.probes["port_deleted_with_its_packets_held"] += 1
+
   def op_set_config(self, st):
     self.roundtrip(W.enc_set_config(self.nx(), st["flags"], st["msl"]))
     self.model.flags = st["flags"]
